@@ -130,7 +130,15 @@ static void point_block(uint64_t idx, void *ctx)
         char q0[48], q1[48], q2[48], q3[48];
         if (ret < 0) {
             n_abort++;
-            c11_fail("c11-transform-point-abort", "%s aborts: %s; %s; w = %s/2^32 (%s regime); the statement says it never aborts", fn, c11_abort_msg,
+            /* the recorded finding is narrow: the divisor, reduced to 49 bits (floor), is exactly -2^48, i.e.
+             * w = -2^k (k >= 16) or up to 2^-48 relative above it: raw32 W in [-2^K, -2^K + 2^(K-48)), K >= 48.
+             * Any other abort gets the generic key. */
+            i128 nw = -W; int negpow2 = 0;
+            if (W < 0) {
+                int K = 0; while (((i128)1 << K) < nw) K++;            /* smallest K with 2^K >= -W */
+                negpow2 = K >= 48 && (((i128)1 << K) - nw) < ((i128)1 << (K - 48));
+            }
+            c11_fail(negpow2 ? "c11-transform-point-abort-w-minus-2k" : "c11-transform-point-abort", "%s aborts: %s; %s; w = %s/2^32 (%s regime); the statement says it never aborts", fn, c11_abort_msg,
                      pt_case_str(&m, v, cs, sizeof cs), i128_str(W, q0), exact ? "exact" : "one-unit");
         } else if (ret && want == V_FALSE) {
             c11_fail("c11-transform-point-true-on-unrepresentable", "%s returned TRUE (%lld, %lld) but no admissible result is representable: x in [%s,%s] y in [%s,%s]%s; %s",
@@ -151,7 +159,7 @@ static void point_block(uint64_t idx, void *ctx)
         }
         uint64_t h = vf_mix(vf_mix((uint64_t)(ret + 2), ret > 0 ? (uint64_t)out[0] : 0), ret > 0 ? (uint64_t)out[1] : 0);
         vf_outcome(h);
-        if (a == 1 && b == 2 % s->n[1] && c == 1 % s->n[2] && ret > 0 && (co[0].inexact || !exact) && vf_want_sample() && idx % 97 == 5)
+        if (a == 1 && b == 2 % s->n[1] && c == 1 % s->n[2] && ret > 0 && (co[0].inexact || !exact) && idx % 97 == 5 && c11_want_sample(s->wide ? 8 : 0))
             vf_sample("%s: %s -> TRUE (%lld, %lld, %lld); oracle x in [%s,%s], y in [%s,%s], %s regime", fn, pt_case_str(&m, v, cs, sizeof cs),
                       (long long)out[0], (long long)out[1], (long long)out[2], i128_str(co[0].adm.lo, q0), i128_str(co[0].adm.hi, q1),
                       i128_str(co[1].adm.lo, q2), i128_str(co[1].adm.hi, q3), exact ? "exact" : "one-unit");
@@ -218,7 +226,7 @@ static void multiply_block(uint64_t idx, void *ctx)
     pixman_transform_t l, r, out;
     int64_t L[3][3], R[3][3];
     for (int i = 0; i < 3; i++) for (int j = 0; j < 3; j++) { r.matrix[i][j] = b[(i + j) % 3]; R[i][j] = r.matrix[i][j]; }   /* column j = rotation of b */
-    uint64_t n_inner = (uint64_t)s->n * s->n * s->n, n_inx = 0, n_ff = 0, n_either = 0;
+    uint64_t n_inner = (uint64_t)s->n * s->n * s->n, n_inx = 0, n_ff = 0, n_either = 0, n_nt = 0;
     char lb[400], rb[400], ob[400], q0[48], q1[48];
     c11_blk_begin();
     for (int x = 0; x < s->n; x++) for (int y = 0; y < s->n; y++) for (int z = 0; z < s->n; z++) {
@@ -226,7 +234,7 @@ static void multiply_block(uint64_t idx, void *ctx)
         for (int i = 0; i < 3; i++) for (int j = 0; j < 3; j++) { l.matrix[i][j] = a[(i + j) % 3]; L[i][j] = l.matrix[i][j]; }
         iv_t adm[3][3]; int inx;
         int want = adm_matmul(L, R, adm, &inx);
-        n_inx += inx; n_ff += want == V_FALSE; n_either += want == V_EITHER;
+        n_inx += inx; n_ff += want == V_FALSE; n_either += want == V_EITHER; n_nt += inx || want != V_TRUE;
         memset(&out, 0x5a, sizeof out);
         void *args[3] = { &out, &l, &r };
         int ret = c11_guard(thunk_mul, args);
@@ -245,12 +253,12 @@ static void multiply_block(uint64_t idx, void *ctx)
             }
         }
         vf_outcome(ret > 0 ? mat_hash(&out, 11) : (uint64_t)(ret + 5));
-        if (ret > 0 && inx && x == 3 % s->n && y == 5 % s->n && z == 1 && idx % 211 == 7 && vf_want_sample())
+        if (ret > 0 && inx && x == 3 % s->n && y == 5 % s->n && z == 1 && idx % 211 == 7 && c11_want_sample(1))
             vf_sample("multiply l=%s r=%s -> TRUE %s; [0][0] admissible [%s,%s]", mat_str(&l, lb, sizeof lb), mat_str(&r, rb, sizeof rb), mat_str(&out, ob, sizeof ob),
                       i128_str(adm[0][0].lo, q0), i128_str(adm[0][0].hi, q1));
     }
     c11_blk_end();
-    vf_count_eval(n_inner); vf_count_nontrivial(n_inx + n_ff); vf_count_libcalls(n_inner);
+    vf_count_eval(n_inner); vf_count_nontrivial(n_nt); vf_count_libcalls(n_inner);
     ST_ADD(mul_inexact, n_inx); ST_ADD(mul_false_forced, n_ff); ST_ADD(mul_either, n_either);
 }
 
